@@ -330,6 +330,8 @@ func createBuilderControl(info *nfpm.Info, size int64, dataDigest []byte) func(t
 			Mode: 0o600,
 			Size: int64(len(infoContent)),
 		}
+		// like every other member: the package mtime, not 1970-01-01
+		infoHeader.ModTime = info.MTime
 
 		if err := writeFile(tw, infoHeader, strings.NewReader(infoContent)); err != nil {
 			return err
